@@ -145,7 +145,7 @@ pub struct BatchResult {
     pub per_scenario_digest: Vec<(u64, u64)>,
     pub stats: Stats,
     pub samples: Vec<J>,
-    pub violations: Vec<(u64, Violation, Vec<u32>)>,
+    pub violations: Vec<(u64, Violation, Vec<u32>, crate::tape::Spans)>,
     pub wall_s: f64,
     pub hit_time_cap: bool,
 }
@@ -159,7 +159,7 @@ struct WorkerOut {
     digests: Vec<(u64, u64)>,
     stats: Stats,
     samples: Vec<(u64, J)>,
-    violations: Vec<(u64, Violation, Vec<u32>)>,
+    violations: Vec<(u64, Violation, Vec<u32>, crate::tape::Spans)>,
 }
 
 const HANG_S: u64 = 60;
@@ -291,7 +291,8 @@ pub fn run_batch(
                                 out.samples.push((i, s));
                             }
                             if let Some(v) = r.violation {
-                                out.violations.push((i, v, tape.into_canonical()));
+                                let (canon, spans) = tape.into_parts();
+                                out.violations.push((i, v, canon, spans));
                                 if nviol.fetch_add(1, Ordering::Relaxed) + 1 >= MAX_VIOLATIONS as u64
                                 {
                                     stop.store(true, Ordering::Relaxed);
@@ -347,7 +348,7 @@ pub fn run_batch(
     }
     samples.sort_by_key(|(i, _)| *i);
     res.samples = samples.into_iter().map(|(_, s)| s).collect();
-    res.violations.sort_by_key(|(i, _, _)| *i);
+    res.violations.sort_by_key(|(i, _, _, _)| *i);
     res.distinct_nontrivial = keys.len() as u64;
     res.distinct_histories = histories.len() as u64;
     res.wall_s = start.elapsed().as_secs_f64();
@@ -435,7 +436,12 @@ pub struct CheckOutcome {
     pub exit_code: i32,
 }
 
-fn rerun(prop: &dyn Property, tier: Tier, index: u64, tape: &[u32]) -> (ScenarioResult, Vec<u32>) {
+fn rerun(
+    prop: &dyn Property,
+    tier: Tier,
+    index: u64,
+    tape: &[u32],
+) -> (ScenarioResult, Vec<u32>, crate::tape::Spans) {
     let mut t = Tape::replay(tape.to_vec());
     let mut st = Stats::default();
     let ctx = Ctx {
@@ -444,7 +450,8 @@ fn rerun(prop: &dyn Property, tier: Tier, index: u64, tape: &[u32]) -> (Scenario
         index,
     };
     let r = prop.run(&mut t, &ctx, &mut st);
-    (r, t.into_canonical())
+    let (canon, spans) = t.into_parts();
+    (r, canon, spans)
 }
 
 pub fn replay_file_json(
@@ -502,7 +509,7 @@ pub fn check(prop: &dyn Property, tier: Tier) -> i32 {
     // and in total); the clock only decides how far minimisation gets, never
     // what is reported as failing
     let shrink_started = Instant::now();
-    for (index, v0, tape0) in &res.violations {
+    for (index, v0, tape0, spans0) in &res.violations {
         // minimise: same oracle rule must keep failing
         let rule = v0.rule.clone();
         let mut budget = plan.shrink_budget;
@@ -510,19 +517,19 @@ pub fn check(prop: &dyn Property, tier: Tier) -> i32 {
             budget = budget.min(100);
         }
         let this_started = Instant::now();
-        let (best, used) = shrink(tape0.clone(), budget, |cand| {
+        let (best, used) = shrink(tape0.clone(), spans0.clone(), budget, |cand| {
             if this_started.elapsed() > Duration::from_secs(30)
                 || shrink_started.elapsed() > Duration::from_secs(90)
             {
                 return None;
             }
-            let (r, canon) = rerun(prop, tier, *index, cand);
+            let (r, canon, spans) = rerun(prop, tier, *index, cand);
             match r.violation {
-                Some(v) if v.rule == rule => Some(canon),
+                Some(v) if v.rule == rule => Some((canon, spans)),
                 _ => None,
             }
         });
-        let (r, canon) = rerun(prop, tier, *index, &best);
+        let (r, canon, _) = rerun(prop, tier, *index, &best);
         let (v, canon, used) = match r.violation {
             Some(v) if v.rule == rule => (v, canon, used),
             _ => {
